@@ -497,7 +497,8 @@ def run(ctx, R):
     okdel = len(guards) == 1 and len(rec) == 1 and gd.dominates(
         guards[0], C.stmt_of(rec[0])) and isinstance(
             gtest, ast.Call) and RPM + ':_has_child_providers' in \
-        C.call_name(ctx, d, gtest) and src(gtest.args[-1]) == d.params[1]
+        C.call_name(ctx, d, gtest) and src(gtest.args[-1]) in d.params \
+        and src(gtest.args[-1]) == src(rec[0].args[-1])
     R.ob('R9.4', 'delete:children-refused', okdel,
          'a provider with children is refused before its row is deleted',
          [src(x.test) for x in guards], func=d)
